@@ -24,7 +24,7 @@ IsEvent(kind) == l <= Len(Rec) /\ Rec[l].k = kind /\ ~Has(Rec[l], "force") /\ ~H
 Aff(rep) == ToAffine(rep)
 RepOK(rep) == Len(rep) = 4 /\ (\A i \in 1..4 : NLess(rep[i], P)) /\ ExtOK(rep)
 NoLazy == [st |-> "none"]
-RInit == l = 1 /\ lz = NoLazy /\ cost = [dec |-> -1, enc |-> -1, D |-> -1, N |-> -1, P |-> -1, M |-> -1] /\ shape = {}
+RInit == l = 1 /\ lz = NoLazy /\ cost = [dec |-> -1, enc |-> -1, D |-> -1, N |-> -1, P |-> -1, M |-> -1, S |-> -1, T |-> -1] /\ shape = {}
 TReset == IsEvent("reset") /\ lz' = NoLazy /\ UNCHANGED <<cost, shape>>
 
 \* ---- what a gadget must compute ------------------------------------------------
@@ -113,8 +113,13 @@ LzEnc == IF lz.from = "encoding" THEN lz.s ELSE EncodeSpec(lz.pt)
 LzElt == IF lz.from = "encoding" THEN DecodeSpec(lz.s) ELSE lz.pt
 Bind(c, field, delta) == IF c[field] = -1 THEN [c EXCEPT ![field] = delta] ELSE c
 GenPt == DecodeSpec(FOfNat(8))
-IsMutator(op) == op \in {"D", "N", "P", "M"}
+\* "S" / "T": v := select(cond, v, w) against a second variable w = 2B that already holds BOTH its encoding and its
+\* element (created and forced before v, so that its constraints are not attributed to v); "S" takes w, "T" keeps v.
+\* Either way the result is a fresh variable holding only the selected ELEMENT.
+IsMutator(op) == op \in {"D", "N", "P", "M", "S", "T"}
+OtherPt == EDbl(GenPt)
 Mutated(op, pt) == CASE op = "D" -> EDbl(pt) [] op = "N" -> ENeg(pt) [] op = "P" -> EAdd(pt, GenPt) [] op = "M" -> ESub(pt, GenPt)
+                     [] op = "S" -> OtherPt [] op = "T" -> pt
 TLazyOp == IsEvent("lazy_op") /\ LET e == Rec[l] IN
              /\ lz.st \in LazyStates
              /\ IF IsMutator(e.op)
